@@ -68,6 +68,25 @@ func main() {
 		c.Cov("wall_tlc_"+name, st.TLCWall.Seconds())
 		c.Cov("wall_go_"+name, st.GoWall.Seconds())
 	}
+	// v2 contract life-cycles with the revision defects: a revision that leaves the host's valid output below its
+	// missed value would let an expiry pay out more than the contract locks
+	{
+		cfg := chain.BaseConfig(chain.Shapes()["v2only"])
+		cfg.Templates, cfg.Defects = []string{"form2", "rev2", "res2"}, []string{"revision"}
+		cfg.FormRH, cfg.MaxTxns = [][2]int{{250024, 25}, {599, 200}}, 3
+		st := chain.Run(c, cfg, chain.RunOpts{Num: c.Pick(140, 3500), Depth: 56, NoFocus: true, Timeout: 20 * time.Minute})
+		total.Behaviours += st.Behaviours
+		total.Steps += st.Steps
+		total.Accepted += st.Accepted
+		total.Rejected += st.Rejected
+		total.Txs += st.Txs
+		for k, v := range st.Tags {
+			total.Tags[k] += v
+		}
+		if st.Tags["v2:rev2!missedabovehost"] == 0 {
+			c.Infra("vacuity: no revision with the host's valid output below its missed value was generated")
+		}
+	}
 	c.Cov("blocks_accepted", total.Accepted)
 	c.Cov("blocks_rejected_as_predicted", total.Rejected)
 	c.Cov("transactions", total.Txs)
